@@ -317,12 +317,19 @@ impl FormatSpec {
         inter: i32,
         sep: char,
         disp_digit_cnt: i32,
+        hex_digits: bool,
     ) -> String {
         // Only the leading run of digits is grouped: a fraction, an exponent or a '%' sign is copied
         // unchanged, and a text without digits (inf, nan) is not grouped at all.
         let int_len = magnitude_str
             .bytes()
-            .take_while(|b| b.is_ascii_digit())
+            .take_while(|b| {
+                if hex_digits {
+                    b.is_ascii_hexdigit()
+                } else {
+                    b.is_ascii_digit()
+                }
+            })
             .count();
         if int_len == 0 {
             return magnitude_str;
@@ -434,6 +441,7 @@ impl FormatSpec {
                     inter,
                     sep,
                     disp_digit_cnt,
+                    matches!(self.format_type, Some(FormatType::Hex(_))),
                 )
             }
             None => magnitude_str,
